@@ -23,8 +23,8 @@ SPEC = dict(
                  'members that cannot be instantiated (PoolList::front/back, HashMap/PoolMap::front() const) are not called'],
     technique='runtime monitoring: tracked element type + live-count accounting + reference model + sanitizers over generated histories',
     exhaustive={Q: False, T: False},
-    jobs=[job(t, 'h_once', t, cases={Q: 8000, T: 120000}, procs=2, timeout=900, probes=_PROBES.get(t, [])) for t in _TYPES] +
-         [job(t + '-long', 'h_once', t + '-long', cases={Q: 250, T: 5000}, procs=2, timeout=900) for t in _TYPES],     # mode <type>-long: histories 6 times as long
+    jobs=[job(t, 'h_once', t, cases={Q: 16000, T: 120000}, procs=2, timeout=900, probes=_PROBES.get(t, [])) for t in _TYPES] +
+         [job(t + '-long', 'h_once', t + '-long', cases={Q: 500, T: 5000}, procs=2, timeout=900) for t in _TYPES],     # mode <type>-long: histories 6 times as long
     floors={Q: dict(ops=3200000, elements_observed=300000000, live_count_checks=4200000, cases_with_self_argument=30000, cases_with_copy=22000, self_elem_at_growth=22000, **{'set:op_classes': 160}),
             T: dict(ops=56000000, elements_observed=5400000000, live_count_checks=70000000, cases_with_self_argument=480000, cases_with_copy=360000, self_elem_at_growth=380000, **{'set:op_classes': 160})},
 )
